@@ -234,3 +234,155 @@ def memo_completeness(db, module_names):
                 else:
                     out.append((fi, stores[0], memo, []))
     return out
+
+
+# --------------------------------------------------------------------------
+def _sub_chain(expr):
+    """(root Name, [index exprs]) of a pure subscript chain T[a][b]..., else None."""
+    idx = []
+    while isinstance(expr, ast.Subscript):
+        idx.append(expr.slice)
+        expr = expr.value
+    if isinstance(expr, ast.Name) and idx:
+        return expr.id, list(reversed(idx))
+    return None
+
+
+def _stored_names(stmts):
+    out = set()
+    for st in stmts:
+        for n in ast.walk(st):
+            if isinstance(n, ast.Name) and isinstance(n.ctx, ast.Store):
+                out.add(n.id)
+    return out
+
+
+def shared_entry_mutations(fi, sites=None):
+    """In-place writes through a name that may alias an entry of a table shared between loop iterations.
+
+    Inside a `for` loop, `v = T[i][j]` (T bound outside the loop, basic/int/key indexing: the same object or a view)
+    makes v an alias of storage that a later iteration can read again, unless one of the indices is the loop's own
+    injective induction variable (`for i in range(..)`, the counter of `enumerate`).  An augmented assignment to v, a
+    subscript store through v, or `out=v` then changes what the later iteration reads.  May-alias, joined over branches:
+    `if norm: v = v * c` leaves v aliased on the other branch.  Returns [(stmt, alias name, table text)]; `sites` collects
+    the alias-creating table reads that were tracked.
+    """
+    found = []
+
+    def unique_names(loop):
+        t, it = loop.target, loop.iter
+        if isinstance(it, ast.Call) and isinstance(it.func, ast.Name):
+            if it.func.id == 'range' and isinstance(t, ast.Name):
+                return {t.id}
+            if it.func.id == 'enumerate' and isinstance(t, ast.Tuple) and t.elts and isinstance(t.elts[0], ast.Name):
+                return {t.elts[0].id}
+        return set()
+
+    def value_alias(v, st, ctx):
+        """reason if evaluating v may give shared storage under state st."""
+        if isinstance(v, ast.Name):
+            return st.get(v.id)
+        ch = _sub_chain(v)
+        if ch is not None and ctx is not None:
+            root, idxs = ch
+            loop_stores, uniq = ctx
+            if root in st:
+                return st[root]
+            if root not in loop_stores and all(_basic_index(i) or isinstance(i, (ast.Name, ast.Constant)) for i in idxs):
+                flat = [e for i in idxs for e in (i.elts if isinstance(i, ast.Tuple) else [i])]
+                if not any(isinstance(i, ast.Name) and i.id in uniq for i in flat):
+                    if sites is not None:
+                        sites.add((v.lineno, ast.unparse(v)))
+                    return ast.unparse(v)
+            return None
+        if isinstance(v, ast.Subscript):
+            r = value_alias(v.value, st, ctx)
+            return r if r and _basic_index(v.slice) else None
+        if isinstance(v, ast.Attribute) and v.attr in VIEW_ATTRS:
+            return value_alias(v.value, st, ctx)
+        if isinstance(v, ast.Call):
+            fn = v.func
+            if isinstance(fn, ast.Attribute) and fn.attr in VIEW_METHODS:
+                return value_alias(fn.value, st, ctx)
+            name = fn.attr if isinstance(fn, ast.Attribute) else (fn.id if isinstance(fn, ast.Name) else '')
+            if name in VIEW_FUNCS and v.args:
+                return value_alias(v.args[0], st, ctx)
+        return None
+
+    def block(stmts, st, ctx):
+        for s in stmts:
+            st = stmt(s, st, ctx)
+        return st
+
+    def join(a, b):
+        out = dict(a)
+        for k, v in b.items():
+            out.setdefault(k, v)
+        return out
+
+    def stmt(s, st, ctx):
+        if isinstance(s, ast.Assign):
+            for t in s.targets:
+                if isinstance(t, ast.Name):
+                    r = value_alias(s.value, st, ctx)
+                    st = dict(st)
+                    if r:
+                        st[t.id] = r
+                    else:
+                        st.pop(t.id, None)
+                elif isinstance(t, (ast.Tuple, ast.List)):
+                    st = dict(st)
+                    for i, e in enumerate(t.elts):
+                        if isinstance(e, ast.Name):
+                            ve = s.value.elts[i] if isinstance(s.value, (ast.Tuple, ast.List)) and len(s.value.elts) == len(t.elts) else None
+                            r = value_alias(ve, st, ctx) if ve is not None else None
+                            if r:
+                                st[e.id] = r
+                            else:
+                                st.pop(e.id, None)
+                elif isinstance(t, ast.Subscript):
+                    r = value_alias(t.value, st, None)
+                    if r:
+                        found.append((s, ast.unparse(t.value), r))
+        elif isinstance(s, ast.AugAssign):
+            t = s.target
+            base = t.value if isinstance(t, ast.Subscript) else t
+            r = value_alias(base, st, None)
+            if r:
+                found.append((s, ast.unparse(base), r))
+        elif isinstance(s, ast.If):
+            st = join(block(s.body, st, ctx), block(s.orelse, st, ctx))
+        elif isinstance(s, ast.For):
+            inner = (_stored_names(s.body) | _stored_names([s.target]), unique_names(s))
+            if ctx is not None:
+                inner = (inner[0], inner[1] | ctx[1])
+            cur = st
+            for _ in range(2):          # second pass: aliases created late in the body reach its head
+                n_before = len(found)
+                cur = join(cur, block(s.body, cur, inner))
+            st = join(cur, block(s.orelse, cur, ctx))
+        elif isinstance(s, (ast.While, ast.With, ast.Try)):
+            for fld in ('body', 'orelse', 'finalbody'):
+                st = join(st, block(getattr(s, fld, []) or [], st, ctx))
+            for h in getattr(s, 'handlers', []) or []:
+                st = join(st, block(h.body, st, ctx))
+        if isinstance(s, (ast.Expr, ast.Assign, ast.Return, ast.AugAssign)):
+            val = getattr(s, 'value', None)
+            if val is not None:
+                for n in ast.walk(val):
+                    if isinstance(n, ast.Call):
+                        for k in n.keywords:
+                            if k.arg == 'out':
+                                r = value_alias(k.value, st, None)
+                                if r:
+                                    found.append((s, ast.unparse(k.value), r))
+        return st
+
+    block(fi.node.body, {}, None)
+    # de-duplicate (the loop body is walked twice)
+    seen, out = set(), []
+    for s, nm, r in found:
+        if (id(s), nm) not in seen:
+            seen.add((id(s), nm))
+            out.append((s, nm, r))
+    return out
